@@ -296,6 +296,10 @@ def evaluate_cases(P, ctx, cases):
             raise RuntimeError('impl runner crashed on %s: %r' % (c.key(), e)) from e
         o = Outcome(c, impl, model, spec, aux)
         judge(o)
+        # a spec answer starting with '-' means "outside the property's domain" (BUILDING.md): a model/implementation
+        # difference there is recorded as a note, never raised as an alarm
+        if isinstance(o.spec, str) and o.spec.startswith('-') and o.prop_ok:
+            o.in_domain = False
         outs.append(o)
     return outs
 
